@@ -61,7 +61,8 @@ def classes():
         yield k, t, True, None
 
 
-GEN_SETS = [(), ("ok0",), ("ok2",), ("fail",), ("ok2", "ok0"), ("ok2", "fail"), ("fail", "ok2"), ("ok2", "ok2b", "fail")]
+GEN_SETS = [(), ("ok0",), ("ok2",), ("fail",), ("ok2", "ok0"), ("ok2", "fail"), ("fail", "ok2"), ("ok2", "ok2b", "fail"),
+            ("failsig",), ("ok2", "failsig"), ("failsig", "fail", "ok2")]
 
 
 def cases(tier, rng):
@@ -80,6 +81,7 @@ def cases(tier, rng):
 
 def run_case(ctx, root, n, case, strace=False):
     cname, text, is_err, lint, nfiles, pos, gens, dry, allow, outdir, fmt = case
+    dup = True
     gc = genrun.GenCase(ctx, root, "c%d" % n)
     argv = []
     names = []
@@ -95,10 +97,12 @@ def run_case(ctx, root, n, case, strace=False):
                 names.append("adir")
             elif isinstance(text, bytes):
                 names.append(gc.write("bad%d.slice" % i, text, binary=True))
+                if (n + nfiles) % 2 == 0:
+                    names.append("./" + names[-1])
             else:
                 names.append(gc.write("main%d.slice" % i, text))
-                if cname == "warn-duplicate-file":
-                    names.append(names[-1])
+                if cname == "warn-duplicate-file" or (dup and (n + nfiles) % 2 == 0):
+                    names.append("./" + names[-1])     # the same file again under another spelling: a DuplicateFile warning
         else:
             names.append(gc.write("other%d.slice" % i, OTHER.replace("module N", "module N%d" % i)))
     argv += names
@@ -113,6 +117,9 @@ def run_case(ctx, root, n, case, strace=False):
             path = gc.add_generator("ok", genrun.reply_files(files), tag=g)
             for p, c in files:
                 expected_files[p] = c
+        elif g == "failsig":
+            # a complete, valid reply and then death by a signal: still a failed generator
+            path = gc.add_generator("replykill", genrun.reply_files([("from_killed.txt", "must not appear\n")]), tag=g)
         else:
             path = gc.add_generator("exit1", genrun.reply_files([("from_failing.txt", "must not appear\n")]), tag=g)
         argv += ["-G", path + (",opt=1" if g == "ok2" else "")]
@@ -171,7 +178,7 @@ def run_case(ctx, root, n, case, strace=False):
             if new_files != want:
                 ctx.violate("generated-files-differ", "files written %r, healthy generators returned %r" % (sorted(new_files), sorted(want)), replay)
                 return
-            n_failing = sum(1 for g in gens if g == "fail")
+            n_failing = sum(1 for g in gens if g in ("fail", "failsig"))
             if nerr != n_failing:
                 ctx.violate("error-count-after-generation", "%d error diagnostics, %d generator(s) failed" % (nerr, n_failing), replay)
                 return
